@@ -244,5 +244,12 @@ package phase2
 // feasibleTree (C01): needs a root node and what setCutValues needs. Two obligations stay open and are excluded from
 // the claim by description (props.json "except"): the keys of the node set returned by tightTree (recursive over two
 // maps, not under contract) are non-nil, and incidentNonTreeEdge finds an edge (needs connectivity of the component)
+// (C03) every round of the tight-tree search starts with no edge flagged as a tree edge: a flag kept from an earlier
+// round lets the search claim a node through a newly tight edge and still follow the node's old tree edge - the "tree"
+// then has a cycle and the layering built from it is infeasible (the defect repaired in 0c52ff4; this assertion is the
+// obligation that guards the repair).
 //@ func networkSimplexProcessor.feasibleTree
+//@   assert[freshflags|C03] before "treeNodes := tightTree(g.Nodes[0], graph.EdgeSet{}, graph.NodeSet{})" : forall i int :: 0 <= i && i < len(g.Edges) ==> !g.Edges[i].IsInSpanningTree
+//@   loop range(g.Edges)#1 index k
+//@     invariant[|C03] forall i int :: 0 <= i && i < k ==> !g.Edges[i].IsInSpanningTree
 //@   requires[|C01] p != nil && g != nil && len(g.Nodes) >= 1 && p.lim != nil && p.low != nil && edgeListOK(g)
